@@ -107,6 +107,9 @@ class Ctx:
                 self.viol[k] = dict(e)
             else:
                 cur["count"] += e["count"]
+                # keep the smallest witness (enumerations are simplest-first inside a job, not across jobs)
+                if len(json.dumps(e["case"])) < len(json.dumps(cur["case"])):
+                    cur["case"], cur["what"] = e["case"], e["what"]
 
     def is_known(self, key: str) -> bool:
         return (self.prop, key) in self.known
